@@ -603,7 +603,7 @@ class Family:
                 nf, ns = noop_update_checks(root)
                 findings += nf
                 stats.update(ns)
-            if prop == "C16":
+            if prop in ("C16", "C04"):
                 sf, ss = size_independence(root, tier)
                 findings += sf
                 stats.update(ss)
@@ -763,13 +763,17 @@ def size_independence(root, tier):
     undo = IO.install(S, path)
     seen = {}
     try:
+      for flush in (True, False):
         for auto in (True, False):
             if os.path.exists(path):
                 os.remove(path)
-            db = tf.TinyFlux(path, auto_index=auto)
+            db = tf.TinyFlux(path, auto_index=auto, flush_on_insert=flush)
             cur = 0
+            total = singles = 0
             for sz in sizes:
-                db.insert_multiple([tf.Point(time=V.dt_of(G.T0 + i), tags={"k": str(i)}) for i in range(cur, sz)])
+                batch = [tf.Point(time=V.dt_of(G.T0 + i), tags={"k": str(i)}) for i in range(cur, sz)]
+                db.insert_multiple(batch)
+                total += len(batch)
                 cur = sz
                 for where in ("end", "start", "middle"):
                     if where == "start":
@@ -784,13 +788,28 @@ def size_independence(root, tier):
                     tr = IO.canon(IO.CTL.log)
                     after = open(path, "rb").read()
                     cur += 1
-                    seen.setdefault(tuple(tr), []).append((auto, sz, where))
+                    total += 1
+                    singles += 1
+                    seen.setdefault((flush,) + tuple(tr), []).append((auto, sz, where))
                     if not after.startswith(before):
                         findings.append(Finding("impl-vs-spec", f"insert at size {sz} rewrote existing bytes", dict(family="io-size", size=sz)))
             db.close()
-        if len(seen) != 1:
-            findings.append(Finding("impl-vs-spec", f"the I/O calls of an insert depend on the database: {dict((k, v[:3]) for k, v in seen.items())}",
-                                    dict(family="io-size", traces=[list(k) for k in seen])))
+            # everything inserted is in the file, once, whatever the reads in between left the handle at
+            try:
+                db2 = tf.TinyFlux(path, access_mode="r")
+                ks = [p.tags.get("k") for p in db2.all(sorted=False)]
+                db2.close()
+                want = total
+                nnew = sum(1 for k in ks if k == "new")
+                if len(ks) != want or nnew != singles or len({k for k in ks if k != "new"}) != want - singles:
+                    findings.append(Finding("impl-vs-spec", f"flush_on_insert={flush}, auto_index={auto}: {want} points were inserted (reads in between stopped at the start / "
+                                            f"in the middle of the file); the file holds {len(ks)} rows, {nnew} of the single inserts", dict(family="io-size", flush=flush)))
+            except Exception as e:
+                findings.append(Finding("impl-vs-spec", f"flush_on_insert={flush}, auto_index={auto}: after inserts interleaved with early-stopping reads the file "
+                                        f"no longer decodes: {type(e).__name__}: {str(e)[:80]}", dict(family="io-size", flush=flush)))
+      if len(seen) != 2:
+          findings.append(Finding("impl-vs-spec", f"the I/O calls of an insert depend on the database: {dict((k, v[:3]) for k, v in seen.items())}",
+                                  dict(family="io-size", traces=[list(k) for k in seen])))
     finally:
         undo()
         shutil.rmtree(d, ignore_errors=True)
